@@ -2,6 +2,7 @@ package klevdb
 
 import (
 	"context"
+	"fmt"
 
 	"github.com/klev-dev/klevdb/pkg/notify"
 )
@@ -23,7 +24,15 @@ func OpenBlocking(dir string, opts Options) (BlockingLog, error) {
 	if err != nil {
 		return nil, err
 	}
-	return WrapBlocking(l)
+	bl, err := WrapBlocking(l)
+	if err != nil {
+		// do not leave the log (and its directory lock) open behind a failed open
+		if cerr := l.Close(); cerr != nil {
+			return nil, fmt.Errorf("%w: open blocking close: %w", err, cerr)
+		}
+		return nil, err
+	}
+	return bl, nil
 }
 
 // WrapBlocking wraps a [Log] with support for blocking consume
